@@ -248,6 +248,16 @@ def guards_at(func: FuncInfo, inner: ast.AST) -> List[Tuple[ast.AST, bool]]:
             out.append(a)
     # guards contributed by enclosing comprehension filters / ternaries / boolean short-circuit
     out.extend(expr_level_guards(func, inner))
+    # a condition that was given a name (``owner_active = any(...)`` ... ``if running and owner_active:``) still is that condition:
+    # a bare local that is assigned exactly once to a boolean-valued expression is expanded into the atoms of that expression
+    from .cfg import split_atoms
+    extra: List[Tuple[ast.AST, bool]] = []
+    for a, pol in out:
+        if isinstance(a, ast.Name):
+            defs = [d for d in assignments_to(func, a.id) if isinstance(d, (ast.Assign, ast.AnnAssign)) and getattr(d, "value", None) is not None]
+            if len(defs) == 1 and isinstance(defs[0].value, (ast.Compare, ast.BoolOp, ast.UnaryOp, ast.Call)) and a.id not in func.params:
+                extra.extend(split_atoms(defs[0].value, pol))
+    out.extend(extra)
     return out
 
 
